@@ -337,18 +337,19 @@ def generate(tier, seed):
     rng = np.random.default_rng(seed + 6)
     recs = []
     cache = {}
-    for name, (kind, deg, S, vector) in SOLVE_ELEMS.items():
-        if kind not in cache:
-            cache[kind] = meshes_for(kind, rng, th, True)
-        for fam, p, t, cls in cache[kind]:
-            dim = np.asarray(p).shape[0]
-            d = deg if cls == 'affine' else 1              # general convex Q1 / Hex1 cells: degree-one solutions only
-            if cls == 'general' and deg > 1:
-                continue
-            nb = _nbfacets(kind, p, t)
-            problems = ['elasticity'] if vector else ['poisson', 'reaction']
-            for prob in problems:
-                for rep in range(10 if th else 3):
+    nrep = 20 if th else 3
+    for rep in range(nrep):
+        for name, (kind, deg, S, vector) in SOLVE_ELEMS.items():
+            if (kind, rep) not in cache:
+                cache[(kind, rep)] = meshes_for(kind, rng, th, True)       # fresh random meshes per repetition
+            for fam, p, t, cls in cache[(kind, rep)]:
+                dim = np.asarray(p).shape[0]
+                d = deg if cls == 'affine' else 1          # general convex Q1 / Hex1 cells: degree-one solutions only
+                if cls == 'general' and deg > 1:
+                    continue
+                nb = _nbfacets(kind, p, t)
+                problems = ['elasticity'] if vector else ['poisson', 'reaction']
+                for prob in problems:
                     # Dirichlet part: a random non-empty subset of the boundary facets (sometimes all of them,
                     # for reaction-diffusion sometimes none); natural data on the rest
                     mode = ['mixed', 'mixed', 'dirichlet', 'neumann'][int(rng.integers(0, 4))]
@@ -377,7 +378,7 @@ def generate(tier, seed):
         kind = EL.CATALOGUE[name]['kind']
         if kind not in cache:
             cache[kind] = meshes_for(kind, rng, th, True)
-        fams = cache[kind][:3 if th else 2]
+        fams = cache[kind][:4 if th else 2]
         for fam, p, t, cls in fams:
             base = {'driver': 'project', 'kind': kind, 'family': fam, 'elem': name,
                     'p': np.asarray(p).astype(int).tolist(), 't': np.asarray(t).astype(int).tolist()}
